@@ -37,6 +37,7 @@ type heightRef struct {
 	bal    map[common.Address]string // tracked balances after the block (decimal)
 	nonce  map[common.Address]uint64
 	status []byte // serialized consensus status saved for this height
+	trieRoot string // root of the world state stored for this height (zero in kv mode)
 	utxo   *utxoRef
 }
 
@@ -286,10 +287,11 @@ func (r *crashRun) takeRef(n *node, h uint64) (*heightRef, error) {
 	for _, tx := range blk.Data.Txs {
 		ref.txs = append(ref.txs, tx.Hash())
 	}
-	st, _, err := durableState(n.disk, r.w.isTrie, h)
+	st, res, err := durableState(n.disk, r.w.isTrie, h)
 	if err != nil {
 		return nil, err
 	}
+	ref.trieRoot = res.TrieRoot.Hex()
 	ref.bal, ref.nonce = r.readLedger(st)
 	status, err := cs.LoadStatusByHeight(n.disk.DB(simnode.DBStatus), h)
 	if err != nil {
@@ -648,16 +650,17 @@ func (r *crashRun) checkView(n *node, sc *scenario, z *zRef, needH bool, phase s
 			break
 		}
 	}
-	if r.w.isTrie {
-		if hdr := bs.GetHeader(H); hdr != nil && res != nil && hdr.StateHash != res.TrieRoot {
-			if r.violate(sc, "state-differs", "%s: header %d carries state hash %s, stored root %s", phase, H, hdr.StateHash.Hex(), res.TrieRoot.Hex()) {
-				return false
-			}
+	// the execution result stored for H belongs to the stored block H, and (trie
+	// mode, where the root commits to the whole state) it is the root the
+	// uncrashed execution stored
+	if hdr := bs.GetHeader(H); hdr == nil || res == nil || hdr.StateHash != res.StateHash {
+		if r.violate(sc, "state-differs", "%s: header %d and the stored execution result of height %d carry different state hashes", phase, H, H) {
+			return false
 		}
-		if hdr := bs.GetHeader(H); hdr != nil && st.IntermediateRoot(false) != hdr.StateHash {
-			if r.violate(sc, "state-differs", "%s: state root on disk for height %d is not the header's state hash", phase, H) {
-				return false
-			}
+	}
+	if r.w.isTrie && H <= h && res != nil && res.TrieRoot.Hex() != ref.trieRoot {
+		if r.violate(sc, "state-differs", "%s: trie root stored for height %d is %s, the uncrashed execution stored %s", phase, H, res.TrieRoot.Hex(), ref.trieRoot) {
+			return false
 		}
 	}
 	if !r.checkUtxo(n, sc, z, H, phase) {
